@@ -15,7 +15,7 @@ RULE = ('kind=smtp/lmtp: stage x outcome scripts: one of {banner, EHLO (incl. 50
         'numeric-but-invalid code, disconnect, stall}, all other stages succeed; plus all RCPT outcome tuples over {250,450,550} for 1..3 '
         'recipients; PIPELINING on/off; connect refused / timeout; 8-bit body without 8BITMIME. kind=pipe: every (exit status, '
         'output shape) in both per-recipient modes and the Maildrop / Dovecot helpers. kind=http: status class x X-Smtp-Reply '
-        'header, refused connection, stalled response. kind=mx: stub resolver answers. distinct = distinct case descriptor; '
+        'header, refused connection, stalled response. kind=mx: every pair of resolver answers (MX: record lists incl. ties and the empty list, no data, not found, error; A likewise) x attempt number x recipient with / without a domain, plus seeded MX lists. distinct = distinct case descriptor; '
         'non-trivial = every case.')
 BUDGET_S = {'quick': 170, 'thorough': 1500}
 STAGES = ['banner', 'ehlo', 'helo', 'starttls', 'auth', 'mail', 'rcpt0', 'rcpt1', 'data', 'eod', 'eod1', 'rset']
@@ -79,8 +79,18 @@ def cases(tier, seed, phase):
             yield {'kind': 'http', 'what': 'response', 'status': status, 'hdr': hdr, 'nr': 2}
     yield {'kind': 'http', 'what': 'refused', 'status': 0, 'hdr': None, 'nr': 1}
     yield {'kind': 'http', 'what': 'timeout', 'status': 0, 'hdr': None, 'nr': 1}
-    for ans in ('mx2', 'a-only', 'nothing', 'error', 'nodomain'):
-        yield {'kind': 'mx', 'answer': ans}
+    # MX relay: every pair of resolver answers x attempts, then seeded MX lists with ties
+    mxs = [[[10, 1], [20, 2]], [[20, 2], [10, 1], [10, 3]], [[5, 1]], [], 'nodata', 'notfound', 'error']
+    for mx in mxs:
+        for a in (1, 2, 0, 'nodata', 'notfound', 'error'):
+            for attempts in (0, 1, 2, 3):
+                for domain in ((True, False) if attempts == 0 else (True,)):
+                    yield {'kind': 'mx', 'mx': mx, 'a': a, 'attempts': attempts, 'domain': domain}
+    for j in range(300 if tier == 'quick' else 5000):
+        rng = rng_for(seed, 'c11mx', j)
+        mx = [[rng.choice([0, 5, 10, 10, 20, 50]), h + 1] for h in range(rng.randint(1, 6))]
+        rng.shuffle(mx)
+        yield {'kind': 'mx', 'mx': mx, 'a': rng.choice([1, 'nodata']), 'attempts': rng.randrange(12), 'domain': True}
 
 
 def classify(value):
@@ -471,38 +481,33 @@ def run_http(case, model):
 
 def run_mx(case, model):
     import gevent
+    import gevent.event
+    import pycares
+    from slimta.envelope import Envelope
     from slimta.relay.smtp import mx as mxmod
     from slimta.relay.smtp.mx import MxSmtpRelay
+    from slimta.util.dns import DNSError
     saved = mxmod.DNSResolver.query
-
-    class Ans(list):
-        pass
 
     class Rec(object):
         def __init__(self, host, pref=None):
             self.host = host
             self.ttl = 60
             self.priority = pref
+    ERR = {'nodata': pycares.errno.ARES_ENODATA, 'notfound': pycares.errno.ARES_ENOTFOUND, 'error': pycares.errno.ARES_ESERVFAIL}
 
     def fake_query(name, query_type):
-        from slimta.util.dns import DNSError
-        import pycares
         res = gevent.event.AsyncResult()
-        a = case['answer']
-        if a == 'error':
-            res.set_exception(DNSError(pycares.errno.ARES_ESERVFAIL))
-        elif a in ('nothing', 'nodomain'):
-            res.set_exception(DNSError(pycares.errno.ARES_ENODATA if a == 'nothing' else pycares.errno.ARES_ENOTFOUND))
+        ans = case['mx'] if query_type == 'MX' else case['a']
+        if isinstance(ans, str):
+            res.set_exception(DNSError(ERR[ans]))
         elif query_type == 'MX':
-            if a == 'mx2':
-                res.set([Rec('mx1.example', 10), Rec('mx2.example', 20)])
-            else:
-                res.set_exception(DNSError(pycares.errno.ARES_ENODATA))
+            res.set([Rec('mx%d.example' % h, p) for p, h in ans])
         else:
-            res.set([Rec('10.0.0.1')])
+            res.set([Rec('10.0.0.%d' % i) for i in range(ans)])
         return res
-    import gevent.event
     mxmod.DNSResolver.query = staticmethod(fake_query)
+    chosen = []
     try:
         relay = MxSmtpRelay(connect_timeout=0.1, command_timeout=0.1)
 
@@ -511,22 +516,53 @@ def run_mx(case, model):
                 self.dest = dest
 
             def attempt(self, envelope, attempts):
+                chosen.append(self.dest)
                 return None
 
             def kill(self):
                 pass
         relay.new_static_relay = lambda dest, port: Static(dest)
-        res = run_attempt(relay, make_env(1), watchdog=3.0)
-    except Exception as e:
-        res = 'harness:' + repr(e)
+        env = Envelope('sender@example.com', ['rcpt0@dest.example' if case['domain'] else 'postmaster'])
+        env.parse(b'Subject: x\r\n\r\nbody\r\n')
+        box = {}
+
+        def go():
+            from slimta.relay import PermanentRelayError, TransientRelayError
+            try:
+                relay.attempt(env, case['attempts'])
+                box['r'] = 'ok'
+            except PermanentRelayError:
+                box['r'] = 'perm'
+            except TransientRelayError:
+                box['r'] = 'temp'
+            except BaseException as e:
+                box['r'] = 'other:' + type(e).__name__
+        g = gevent.spawn(go)
+        g.join(3)
+        res = box.get('r', 'hung')
     finally:
         mxmod.DNSResolver.query = saved
-    want = {'mx2': 'table:ok', 'a-only': 'table:ok', 'nothing': 'raised:perm', 'nodomain': 'raised:perm', 'error': 'raised:temp'}[case['answer']]
+    if res == 'ok':
+        d = chosen[0] if chosen else '?'
+        res = 'deliver:%s' % ('0' if d == 'dest.example' else d[2:].split('.')[0] if d.startswith('mx') else d)
+    mxs = case['mx'] if isinstance(case['mx'], str) else 'r:' + ','.join('%d.%d' % (p, h) for p, h in case['mx'])
+    as_ = case['a'] if isinstance(case['a'], str) else 'r:%d' % case['a']
+    m = model.ask('mx route %d %s %s %d' % (1 if case['domain'] else 0, mxs, as_, case['attempts']))
+    mismatch = None if m == res else {'op': 'mx route', 'impl': res, 'model': m}
     hits = []
-    if res != want:
-        hits.append(hit('c11.mx-resolution.' + case['answer'], 'MX relay outcome differs from the property (unroutable = permanent, resolver error = transient)',
-                        observed=res, expected=want))
-    return None, hits, ['mx-' + case['answer']]
+    unroutable = case['mx'] in ('nodata', 'notfound') and case['a'] in ('nodata', 'notfound')
+    dnserr = case['mx'] == 'error' or (case['mx'] in ('nodata', 'notfound') and case['a'] == 'error')
+    if res.startswith('other') or res == 'hung':
+        hits.append(hit('c11.not-a-relay-result.mx.' + res.split(':')[-1], 'the MX relay ended with something other than a result or a relay error', observed=res))
+    elif case['domain'] and unroutable and res != 'perm':
+        hits.append(hit('c11.mx-resolution.unroutable-not-permanent', 'a domain with neither MX nor A records must fail permanently', observed=res))
+    elif case['domain'] and dnserr and res != 'temp':
+        hits.append(hit('c11.mx-resolution.resolver-error-not-transient', 'a resolver error must be a transient failure', observed=res))
+    elif case['domain'] and isinstance(case['mx'], list) and case['mx']:
+        best = min(p for p, h in case['mx'])
+        if case['attempts'] == 0 and res.startswith('deliver:') and int(res[8:]) not in [h for p, h in case['mx'] if p == best]:
+            hits.append(hit('c11.mx-resolution.first-attempt-not-best', 'the first attempt did not go to an MX host of the best priority', observed=res, expected=case['mx']))
+    return mismatch, hits, ['mx', res.split(':')[0]]
 
 
 def run_case(case, model):
